@@ -108,6 +108,16 @@ func (w *World) Do(a Act) Res {
 		return w.hook(func() {
 			aucv1.BeginBlocker(w.Ctx, w.App.AuctionKeeper, w.App.AssetKeeper, w.App.CollectorKeeper, w.App.EsmKeeper)
 		})
+	case "EsmDeposit": // emergency shutdown: governance-token deposit towards the trigger target
+		return res(w.Deliver(&esmtypes.MsgDepositESM{AppId: app, Depositor: from, Amount: sdk.NewInt64Coin("uhb", a.X)}))
+	case "EsmExecute":
+		return res(w.Deliver(&esmtypes.MsgExecuteESM{AppId: app, Depositor: from}))
+	case "EsmRedeem": // after the cool-off: hand in debt coins for the pro-rata share of the collateral registered for redemption
+		d := a.D
+		if d == "" || d == "-" {
+			d = "ust"
+		}
+		return res(w.Deliver(&esmtypes.MsgCollateralRedemptionRequest{AppId: app, Amount: sdk.NewInt64Coin(d, a.X), From: from}))
 	case "Price": // environment: oracle publishes a new value / switches the feed off
 		w.SetPrice(w.Assets[a.D], uint64(a.Y), a.On)
 		return Res{OK: true}
